@@ -96,17 +96,24 @@ def r1_population_evaluator(ctx):
                                                                                       tuple(getattr(x, "vid", None) for x in interp.mstate.get("stack", ()))),)
                     return Agg("tuple", None, None, [])
 
-                def bv(interp, env, f, args):
-                    return Ref(cnt_home, [], frame="root") if (f.get("gargs") or [""])[0] == EVALS else TOP
+                # the evaluation counter is a cell of the typed store: whichever accessor the code uses, the verdict is read off
+                # the value the state holds afterwards
+                import statemodel
+                store = statemodel.Store(F, levels=1, auto=lambda ty: {0: Agg("adt", EVALS, "Evaluations", [7])} if ty == EVALS else None)
                 popsym = Sym("populations", {sf: Sym("stack")})
                 table = {"mahf::state::State::populations_mut": popsym, "mahf::state::State::populations": popsym, "mahf::state::State::holding": holding,
-                         EVAL: evaluate, "mahf::state::common::Evaluator::as_inner_mut": Sym("held-evaluator:inner"), "mahf::state::common::Evaluator::as_inner": Sym("held-evaluator:inner"),
-                         "mahf::state::registry::StateRegistry::borrow_value_mut": bv}
-                it = _inst(Interp(fn.body, chain(mk_oracle(table), StackModel(sf), coll_oracle, std_oracle), [Sym("self"), Sym("problem"), Sym("state")], facts=F,
-                                  inline=lambda k: k.startswith(POP + "::"), max_visits=8, max_paths=50))
+                         EVAL: evaluate, "mahf::state::common::Evaluator::as_inner_mut": Sym("held-evaluator:inner"), "mahf::state::common::Evaluator::as_inner": Sym("held-evaluator:inner")}
+
+                def pops(interp, env, f, args, popsym=popsym):
+                    if (f.get("key") or "").startswith("mahf::state::registry::StateRegistry::") and f.get("name") in ("borrow", "borrow_mut") and ((f.get("cgargs") or f.get("gargs") or [""])[0] or "").startswith(POP + "<"):
+                        return popsym
+                    return TOP
+                it = _inst(Interp(fn.body, chain(mk_oracle(table), lambda i_, e_, f_, a_, t_, b_, p_: pops(i_, e_, f_, a_), store, StackModel(sf), coll_oracle, std_oracle), [Sym("self"), Sym("problem"), Sym("state")], facts=F,
+                                  inline=lambda k: k.startswith(POP + "::") or statemodel.inline(k), max_visits=8, max_paths=50))
                 stack = tuple(Vec(x) for x in (["bottom"] if below else []) + (["top"] if size is not None else []))
-                it.extra_env = {ev_home: Sym("held-evaluator"), cnt_home: 7}
+                it.extra_env = {ev_home: Sym("held-evaluator")}
                 it.init_state = {"stack": stack, "next_vec": 0, "heap": {"bottom": (c07.ind("b"),), "top": tuple(c07.ind(i) for i in range(size or 0))}}
+                store.install(it)
                 n += 1
                 label = ("%d population(s) below, top population %s" % (below, "absent" if size is None else "of %d" % size), "present" if have_eval else "absent")
                 for p in it.run():
@@ -114,7 +121,8 @@ def r1_population_evaluator(ctx):
                         bad.append(label + ("does not complete (%s)" % p.end,))
                         continue
                     evd = p.mstate.get("evaluated", ())
-                    cnt = p.env.get(cnt_home)
+                    cv_ = store.value(p, EVALS, 0) if EVALS in store.types() else Agg("adt", EVALS, "Evaluations", [7])
+                    cnt = cv_.fields[0] if isinstance(cv_, Agg) and cv_.fields else cv_
                     st = [getattr(x, "vid", repr(x)) for x in p.mstate.get("stack", ())]
                     top_now = [c07.otag(x) for x in p.mstate["heap"].get(st[-1], ())] if st else None
                     if not stack:
@@ -220,7 +228,22 @@ def r3_every_evaluate_is_counted(ctx):
     F = ctx.facts
     sites = eval_sites(F)
     ctx.floor("C06.R3", "call sites of Evaluate::evaluate", len(sites), 2)
+    pe_exec = F.method(PE, "execute", COMPONENT)
+
+    def owner_of(fn_, depth=0):
+        """the component method a (helper) function works for: lifted through private helpers that have a single caller"""
+        if depth > 3 or fn_.impl_trait == COMPONENT:
+            return fn_
+        callers = {g.key: g for (g, b_, t_) in F.callers_of(lambda c, k=fn_.key: c.get("key") == k)}
+        if len(callers) == 1 and getattr(fn_, "vis", None) not in ("pub", "public"):
+            return owner_of(list(callers.values())[0], depth + 1)
+        return fn_
     for (f, bb, t, sl, root) in sites:
+        if owner_of(root).key == pe_exec.key:
+            # the evaluation step itself: what is handed to the evaluator and how far the counter advances is decided exactly
+            # (for stacks, sizes, present / absent evaluator) by C06.R1 on the component as a whole, helpers included
+            ctx.ok("C06.R3", root.key, "evaluation-counted", "evaluation step: decided by C06.R1 on PopulationEvaluator::execute")
+            continue
         body = root.body
         # the statement in root after which counting must happen: the holding(..)? call (or the call itself)
         anchor_bb = bb
